@@ -71,9 +71,19 @@ fn edit_free(r: &mut Rng, base: &Text, alphabet: usize) -> Text {
     t
 }
 
+/// F10 (known): a *merge* is blamed for a line of an in-domain parent whose content lives at a searched
+/// commit `t` (the parent itself, or the commit it inherited the file from), and the edge merge -> `t`
+/// was dropped from the walked graph as transitive.
 const KNOWN_SIG: &str = "annotate:merge-blamed-for-line-of-parent-not-walked";
 
-const KNOWN_SIG_UNRESOLVED: &str = "annotate:line-left-unresolved-at-start-after-root-counted-twice";
+/// F11 (known): a commit is blamed for a line of an in-domain parent whose content is an auto-merge that
+/// no searched commit has (the parent is, or inherits the file from, a merge that leaves the file as
+/// auto-merged and is therefore outside `files(path)`); the walk compares the commit with the merge's
+/// parents one by one instead of with the merge result.
+const KNOWN_SIG_AUTOMERGED: &str = "annotate:blamed-for-line-of-automerged-parent-not-walked";
+
+/// F9 (repaired in /repo a594350; listed as `fixed`, so it is a VIOLATION if it comes back)
+const FIXED_SIG_UNRESOLVED: &str = "annotate:line-left-unresolved-at-start-after-root-counted-twice";
 
 #[derive(Clone)]
 enum Domain { All, AncOfStart, Range(Vec<usize>), Set(Vec<usize>) }
@@ -81,7 +91,7 @@ enum Domain { All, AncOfStart, Range(Vec<usize>), Set(Vec<usize>) }
 struct Hist { dag: Dag, texts: Vec<Option<Text>>, commits: Vec<Commit> }
 
 fn one(out: &mut Out, repo: &dyn Repo, h: &Hist, anc: &[BTreeSet<usize>], start: usize, dom: &Domain, stream: &'static str,
-       deferred: &mut Vec<(&'static str, String)>) {
+       expect: Option<&str>, deferred: &mut Vec<(&'static str, String)>) {
     let n = h.dag.len() - 1;
     let path = repo_path("f");
     let idx: HashMap<CommitId, usize> = h.commits.iter().enumerate().map(|(i, c)| (c.id().clone(), i)).collect();
@@ -158,6 +168,11 @@ fn one(out: &mut Out, repo: &dyn Repo, h: &Hist, anc: &[BTreeSet<usize>], start:
         fail = Some(("annotate:text-differs-from-file", detail("annotated text is not the file content".into())));
     }
     let searched_set: BTreeSet<usize> = searched.iter().copied().collect();
+    // fixed scenarios: the origins that the repaired code must produce
+    if let Some(want) = expect { if fail.is_none() && want != os {
+        let f9 = origins.iter().enumerate().any(|(j, (ok, o, l, _))| !*ok && *o == start && *l == j);
+        fail = Some((if f9 { FIXED_SIG_UNRESOLVED } else { "annotate:fixed-scenario-origins-changed" }, detail(format!("fixed scenario: expected origins {want}"))));
+    } }
     // side condition for the "not carried over from a parent" clause: the domain is a contiguous range
     // (the source documents that non-contiguous domains may mask changes: TODO in `process_commits`)
     let dom_in: BTreeSet<usize> = dom_set.iter().copied().filter(|a| anc[start].contains(a)).collect();
@@ -176,28 +191,45 @@ fn one(out: &mut Out, repo: &dyn Repo, h: &Hist, anc: &[BTreeSet<usize>], start:
                 let pt = text_of(p);
                 if pt.is_empty() { continue; }
                 if matching_ranges(&ot, &pt).iter().any(|&(cs, _, cnt)| cs <= *l && *l < cs + cnt) {
-                    // Known class: the blamed commit is a merge, the parent that has the line is not among the
-                    // edge targets the search walked from it (it is outside `files(path)`/the domain, or its
-                    // edge was dropped as transitive), and the line is unmatched against every walked edge.
+                    // Two known classes, both with the line unmatched against every edge target the search walked
+                    // from the blamed commit and the parent that has the line not among those targets.
+                    // `carriers` = where the walk looks for the parent's content: the parent itself if it is
+                    // searched, else the nearest searched ancestors through commits that are not searched.
                     let targets = walked.get(o).cloned().unwrap_or_default();
                     let unmatched_vs_walked = targets.iter().all(|&t| { let tt = text_of(t); tt.is_empty() || !matching_ranges(&ot, &tt).iter().any(|&(cs, _, cnt)| cs <= *l && *l < cs + cnt) });
-                    let sig = if h.dag[*o].len() >= 2 && !targets.contains(&p) && unmatched_vs_walked { KNOWN_SIG } else { "annotate:line-carried-over-from-parent" };
-                    fail = Some((sig, detail(format!("line {j}: blamed commit {o} line {l}, but the line is unchanged from its parent {p}, which is inside the domain (edges walked from {o}: {targets:?})"))));
+                    let (mut carriers, mut skipped_merge, mut todo, mut seen) = (BTreeSet::new(), false, vec![p], BTreeSet::new());
+                    while let Some(q) = todo.pop() {
+                        if !seen.insert(q) { continue; }
+                        if searched_set.contains(&q) { carriers.insert(q); continue; }
+                        if h.dag[q].len() >= 2 { skipped_merge = true; }
+                        todo.extend(h.dag[q].iter().copied());
+                    }
+                    let same_text: Vec<usize> = carriers.iter().copied().filter(|&t| text_of(t) == pt).collect();
+                    // F10: the blamed commit is a merge, the parent's content lives at a searched commit, and
+                    //      the edge to every such commit was dropped (transitive)
+                    let f10 = h.dag[*o].len() >= 2 && !same_text.is_empty() && same_text.iter().all(|t| !targets.contains(t));
+                    // F11: the parent does not touch the file, below it (through unsearched commits) there is a
+                    //      merge, and no searched commit the walk can reach from it has the parent's content
+                    let f11 = !searched_set.contains(&p) && skipped_merge && same_text.is_empty();
+                    let sig = if !targets.contains(&p) && unmatched_vs_walked && f10 { KNOWN_SIG }
+                              else if !targets.contains(&p) && unmatched_vs_walked && f11 { KNOWN_SIG_AUTOMERGED }
+                              else { "annotate:line-carried-over-from-parent" };
+                    fail = Some((sig, detail(format!("line {j}: blamed commit {o} line {l}, but the line is unchanged from its parent {p}, which is inside the domain (edges walked from {o}: {targets:?}; the parent's content is searched for at {carriers:?}, found at {same_text:?})"))));
                     break;
                 }
             }
         } else if searched_set.contains(o) {
-            // Known class: the line still carries its initial value Err(start, j) and some commit outside the
-            // searched set is the target of two or more missing edges (it is then counted twice in
-            // `num_unresolved_roots`, which ends the walk while other commits are still pending).
-            let sig = if *o == start && *l == j && missing_edges_to.values().any(|&k| k >= 2) { KNOWN_SIG_UNRESOLVED } else { "annotate:unresolved-line-at-searched-commit" };
+            // Repaired defect F9: the line still carries its initial value Err(start, j) and some commit outside
+            // the searched set is the target of two or more missing edges (it used to be counted once per edge
+            // in `num_unresolved_roots`, which ended the walk while other commits were still pending).
+            let sig = if *o == start && *l == j && missing_edges_to.values().any(|&k| k >= 2) { FIXED_SIG_UNRESOLVED } else { "annotate:unresolved-line-at-searched-commit" };
             fail = Some((sig, detail(format!("line {j}: Err origin {o} is a commit of the searched set (missing-edge targets with multiplicity: {missing_edges_to:?})"))));
         }
     }
     match fail {
         None => out.oracle_ok(),
         // known classes are reported after all other failures (the recorded list is capped)
-        Some((sig, d)) if sig == KNOWN_SIG || sig == KNOWN_SIG_UNRESOLVED => { out.tally("known_class", sig); deferred.push((sig, d)); }
+        Some((sig, d)) if sig == KNOWN_SIG || sig == KNOWN_SIG_AUTOMERGED => { out.tally("known_class", sig); deferred.push((sig, d)); }
         Some((sig, d)) => out.oracle_fail(sig, d),
     }
 
@@ -232,23 +264,33 @@ pub fn run(cfg: &Cfg, out: &mut Out) {
     let mut deferred: Vec<(&'static str, String)> = vec![];
     let mut made = 0usize;
     let mut counter = 0u64;
-    // hand-written scenarios: (dag, texts, start, domain)
-    let scenarios: Vec<(Dag, Vec<Option<Text>>, usize, Domain)> = vec![
-        // two children of an out-of-domain commit t=1 both pass lines to it while a shown parent x=2 is pending
+    // hand-written scenarios: (dag, texts, start, domain, expected origins)
+    let scenarios: Vec<(Dag, Vec<Option<Text>>, usize, Domain, Option<&str>)> = vec![
+        // Reproducer of the repaired defect F9 (/repo a594350): two children c1=3, c2=4 of the out-of-domain
+        // commit t=1 both pass lines to it while the shown parent x=2 of c1 is pending. t is ONE unresolved
+        // root, so the walk must go on to x and resolve line "b" there: b -> Ok(x, 0) within t..h.
         (vec![vec![], vec![0], vec![0], vec![1, 2], vec![1], vec![3, 4]],
-         vec![None, Some(vec![1, 4]), Some(vec![2]), Some(vec![1, 2]), Some(vec![1, 4, 3]), Some(vec![1, 2, 4, 3])], 5, Domain::Range(vec![1])),
+         vec![None, Some(vec![1, 4]), Some(vec![2]), Some(vec![1, 2]), Some(vec![1, 4, 3]), Some(vec![1, 2, 4, 3])], 5, Domain::Range(vec![1]),
+         Some("e1.0,o2.0,e1.1,o4.2")),
         // the same with all() as domain (no unresolved roots)
         (vec![vec![], vec![0], vec![0], vec![1, 2], vec![1], vec![3, 4]],
-         vec![None, Some(vec![1, 4]), Some(vec![2]), Some(vec![1, 2]), Some(vec![1, 4, 3]), Some(vec![1, 2, 4, 3])], 5, Domain::All),
-        // merge whose second parent does not touch the file (line re-added by the merge)
+         vec![None, Some(vec![1, 4]), Some(vec![2]), Some(vec![1, 2]), Some(vec![1, 4, 3]), Some(vec![1, 2, 4, 3])], 5, Domain::All,
+         Some("o1.0,o2.0,o1.1,o4.2")),
+        // F10: merge whose second parent does not touch the file (line re-added by the merge)
         (vec![vec![], vec![0], vec![1], vec![1], vec![2, 3]],
-         vec![None, Some(vec![1, 2]), Some(vec![1]), Some(vec![1, 2]), Some(vec![1, 2])], 4, Domain::All),
+         vec![None, Some(vec![1, 2]), Some(vec![1]), Some(vec![1, 2]), Some(vec![1, 2])], 4, Domain::All, None),
+        // F11: m=4=merge(p1=2, p2=3) has exactly the auto-merged content (p1 moves the block "1 2 3" behind
+        // "4 5 6 7", p2 inserts line 8), so m is outside files(path); its child c=5 only deletes lines 4, 6, 7
+        // and is compared with p1 and p2 separately; against p2 the diff keeps the block "1 2 3" and not "5 8"
+        (vec![vec![], vec![0], vec![1], vec![1], vec![2, 3], vec![4]],
+         vec![None, Some(vec![1, 2, 3, 4, 5, 6, 7]), Some(vec![4, 5, 6, 7, 1, 2, 3]), Some(vec![1, 2, 3, 4, 5, 8, 6, 7]),
+              Some(vec![4, 5, 8, 6, 7, 1, 2, 3]), Some(vec![5, 8, 1, 2, 3])], 5, Domain::All, None),
     ];
-    for (dag, texts, start, dom) in &scenarios {
+    for (dag, texts, start, dom, expect) in &scenarios {
         let commits = build(&mut tx, &base, &mut counter, dag, texts);
         let h = Hist { dag: dag.clone(), texts: texts.clone(), commits };
         let anc = anc_sets(&h.dag);
-        one(out, tx.repo(), &h, &anc, *start, dom, "scenario", &mut deferred);
+        one(out, tx.repo(), &h, &anc, *start, dom, "scenario", *expect, &mut deferred);
     }
     for (stream, seed, ordered) in [("ordered", 381u64, true), ("free", 382, false)] {
         let mut r = cfg.rng(seed);
@@ -291,7 +333,7 @@ pub fn run(cfg: &Cfg, out: &mut Out) {
                                Domain::Range((0..r.range(1, 2)).map(|_| if cands.is_empty() { 0 } else { *r.pick(&cands) }).collect()) }
                     _ => { let mut v: Vec<usize> = (0..=n).filter(|_| r.chance(1, 2)).collect(); if !v.contains(&start) { v.push(start); v.sort(); } Domain::Set(v) }
                 };
-                one(out, tx.repo(), &h, &anc, start, &dom, stream, &mut deferred);
+                one(out, tx.repo(), &h, &anc, start, &dom, stream, None, &mut deferred);
             }
         }
     }
